@@ -11,6 +11,7 @@
 -/
 import AttrsModel.Proofs.C17Meets
 import AttrsModel.Proofs.C17CacheMeets
+import AttrsModel.Proofs.C17OldScheme
 
 namespace Attrs.C17
 
@@ -51,57 +52,46 @@ theorem C17_pinned_merge_order_loses :
       lookup (assembleWith ["snippets"] ["names", "module", "fixed"] c modul) n ≠ some o :=
   ⟨valCase, [("_config", moduleObj "_config")], "_config", fixedObj "_config", by decide, by decide⟩
 
-/-- **C17_names_disjoint_partial**: for ALL field names (arbitrary strings):
-    every naming function is injective; the four `__attr_…` schemes (factory, validator, attribute,
-    converter) have pairwise disjoint ranges; the key scheme and the repr scheme have disjoint ranges;
-    no scheme ever produces a fixed helper name; and a key / repr name coincides with an `__attr_…`
-    name only if the field name starts with an underscore.
-    Partial: the full statement — ALL schemes pairwise disjoint — is false on the current tree,
-    because all scripts of a class share one globals dict and `_<n>_key` / `<n>_repr` can equal
-    `__attr_factory_<m>` etc. (`C17_K17b_names_coincide` below; known finding K17b). -/
-theorem C17_names_disjoint_partial :
+/-- **C17_names_disjoint**: for ALL field names (arbitrary strings), with the affixes the source has
+    now: every naming function is injective; the ranges of the six schemes (factory, validator,
+    attribute, converter, key, repr) are pairwise disjoint; the eq and hash scripts agree on the key
+    name and the repr script on the name it binds and the name it calls; and no scheme ever produces a
+    fixed helper name. -/
+theorem C17_names_disjoint :
     (∀ a : String × String, ∀ n m, affix a n = affix a m → n = m) ∧
+    (∀ k k' a b, schemeOf k = some a → schemeOf k' = some b → k ≠ k' → ∀ n m, affix a n ≠ affix b m) ∧
     (∀ n m, factoryName n ≠ validatorName m) ∧ (∀ n m, factoryName n ≠ attributeName m) ∧
     (∀ n m, factoryName n ≠ converterName m) ∧ (∀ n m, validatorName n ≠ attributeName m) ∧
     (∀ n m, validatorName n ≠ converterName m) ∧ (∀ n m, attributeName n ≠ converterName m) ∧
-    (∀ n m, eqKeyName n ≠ reprName m) ∧ (∀ n m, hashKeyName n ≠ reprName m) ∧
-    (∀ n m, eqKeyName n = hashKeyName m → n = m) ∧ (∀ n, reprCallName n = reprName n) ∧
-    (∀ k a, schemeOf k = some a → ∀ n, ∀ s ∈ allFixedNames, affix a n ≠ s) ∧
-    (∀ k a, isInitScheme k = true → schemeOf k = some a → ∀ n m, n.toList.head? ≠ some '_' →
-        eqKeyName n ≠ affix a m ∧ reprName n ≠ affix a m) := by
-  refine ⟨affix_injective, ?_, ?_, ?_, ?_, ?_, ?_, ?_, ?_, ?_, reprCallName_eq, ?_, ?_⟩
+    (∀ n m, eqKeyName n ≠ factoryName m ∧ eqKeyName n ≠ validatorName m ∧
+            eqKeyName n ≠ attributeName m ∧ eqKeyName n ≠ converterName m ∧ eqKeyName n ≠ reprName m) ∧
+    (∀ n m, reprName n ≠ factoryName m ∧ reprName n ≠ validatorName m ∧
+            reprName n ≠ attributeName m ∧ reprName n ≠ converterName m) ∧
+    (∀ n, hashKeyName n = eqKeyName n) ∧ (∀ n, reprCallName n = reprName n) ∧
+    (∀ k a, schemeOf k = some a → ∀ n, ∀ s ∈ allFixedNames, affix a n ≠ s) := by
+  refine ⟨affix_injective, ?_, ?_, ?_, ?_, ?_, ?_, ?_, ?_, ?_, ?_, reprCallName_eq, ?_⟩
+  · intro k k' a b ha hb hne n m
+    exact affix_disjoint a b (schemes_incompatible k k' a b ha hb hne) n m
   · exact affix_disjoint _ _ (by decide)
   · exact affix_disjoint _ _ (by decide)
   · exact affix_disjoint _ _ (by decide)
   · exact affix_disjoint _ _ (by decide)
   · exact affix_disjoint _ _ (by decide)
   · exact affix_disjoint _ _ (by decide)
-  · exact affix_disjoint _ _ (by decide)
-  · exact affix_disjoint _ _ (by decide)
-  · intro n m h
-    have : eqKeyName n = eqKeyName m := by rw [h]; simp [eqKeyName, hashKeyName, hashKey_eq_eqKey]
-    exact affix_injective _ _ _ this
+  · intro n m
+    exact ⟨affix_disjoint _ _ (by decide) n m, affix_disjoint _ _ (by decide) n m,
+           affix_disjoint _ _ (by decide) n m, affix_disjoint _ _ (by decide) n m,
+           affix_disjoint _ _ (by decide) n m⟩
+  · intro n m
+    exact ⟨affix_disjoint _ _ (by decide) n m, affix_disjoint _ _ (by decide) n m,
+           affix_disjoint _ _ (by decide) n m, affix_disjoint _ _ (by decide) n m⟩
+  · intro n; simp [eqKeyName, hashKeyName, hashKey_eq_eqKey]
   · intro k a ha n s hs
     exact affix_ne_of_not_fits a s (fixed_fit_no_scheme k a ha s hs) n
-  · intro k a hk ha n m hn
-    exact ⟨key_ne_initScheme_of_public k a hk ha n m hn, repr_ne_initScheme_of_public k a hk ha n m hn⟩
 
-/-- the coincidences the partial theorem leaves out are real -/
-theorem C17_K17b_names_coincide :
-    eqKeyName "_attr_factory_foo" = factoryName "foo_key" ∧
-    reprName "__attr_validator_foo" = validatorName "foo_repr" := by decide
-
-/-- what the distinct-prefix repair excludes: with the pinned prefix `"__attr_"` for the Attribute
-    global, fields `x` and `validator_x` collide. -/
-theorem C17_pinned_attribute_prefix_collides :
-    affix ("__attr_", "") "validator_x" = affix Generated.c17ValidatorAffix "x" ∧
-    incompatible ("__attr_", "") Generated.c17ValidatorAffix = false := by decide
-
-/-- **C17_table_is_intended**: without a listed naming hazard, every global load of every generated
-    method finds exactly the object the method's own script bound under that name — for every class
-    specification and every poison mode. -/
-theorem C17_table_is_intended (c : Case) (hk : known c = []) : table c = uses c :=
-  table_eq_uses c hk
+/-- **C17_no_helper_clash**: consequently no class — whatever its fields are called — has a helper
+    name bound to two different objects in the globals its scripts share. -/
+theorem C17_no_helper_clash (c : Case) : helperClash c = false := helperClash_false c
 
 /-- a wf class with helpers of every kind and no known finding -/
 def richCase : Case :=
@@ -114,25 +104,26 @@ def richCase : Case :=
                { name := "validator_x", alias := "validator_x", init := true, kwOnly := false,
                  dflt := .factorySelf, conv := .none, validator := true, eq := true, eqKey := false,
                  hash := .unset, repr := .std, onSetattr := .unset }],
-    poison := .helpersOnly }
+    poison := .all }
 
-/-- **C17_module_irrelevant**: the same class specification defined in two modules that pre-bind
-    different sets of names (none / every name the generated code mentions / only the injected ones)
-    resolves every load identically, as long as neither falls under a listed hazard. -/
-theorem C17_module_irrelevant (c : Case) (p : Poison) (hk : known c = [])
-    (hk' : known { c with poison := p } = []) : table { c with poison := p } = table c := by
-  rw [table_eq_uses c hk, table_eq_uses _ hk']
+/-- **C17_table_is_intended**: every global load of every generated method finds exactly the object
+    the method's own script bound under that name — for every class specification, every naming of
+    its fields and every poison mode (in particular when the module pre-binds every name the
+    generated code mentions). -/
+theorem C17_table_is_intended (c : Case) : table c = uses c := table_eq_uses c
+
+/-- **C17_module_irrelevant**: the same class specification defined in modules that pre-bind
+    different sets of names resolves every load identically. -/
+theorem C17_module_irrelevant (c : Case) (p : Poison) : table { c with poison := p } = table c := by
+  rw [table_eq_uses c, table_eq_uses _]
   rfl
 
-/-- non-vacuity: the two hypotheses hold together -/
-example : known richCase = [] ∧ known { richCase with poison := .none } = [] := by decide
-
-/-- **C17_model_meets_spec** (well-formedness is not needed) -/
+/-- **C17_model_meets_spec** (well-formedness is not needed; the one remaining listed hazard is K17c) -/
 theorem C17_model_meets_spec (c : Case) (hk : known c = []) :
     spec c (model c) = true := by
-  obtain ⟨hx, hs, _⟩ := known_nil c hk
-  have ht := table_eq_uses c hk
-  simp only [spec, model, ht, hx, hs, Bool.and_eq_true]
+  have hs := known_nil c hk
+  have ht := table_eq_uses c
+  simp only [spec, model, ht, helperClash_false c, hs, Bool.and_eq_true]
   refine ⟨⟨⟨⟨⟨by decide, ?_⟩, by decide⟩, trivial⟩, ?_⟩, ?_⟩
   · simp only [Bool.not_eq_true', List.any_eq_false, beq_iff_eq]
     intro u hu
@@ -144,26 +135,7 @@ theorem C17_model_meets_spec (c : Case) (hk : known c = []) :
 
 example : wf richCase = true ∧ known richCase = [] ∧ (table richCase).length = 21 := by decide
 
-/-! known findings: witnesses -/
-
-def k17aCase : Case := { valCase with cls := { valCase.cls with genEq := true }, fields := [], poison := .all }
-
-theorem C17_K17a_witness : ∃ c, wf c = true ∧ "K17a" ∈ known c ∧ spec c (model c) = false :=
-  ⟨k17aCase, by decide, by decide, by decide⟩
-
-def k17bCase : Case :=
-  { valCase with
-    cls := { valCase.cls with genEq := true },
-    fields := [{ name := "_attr_factory_foo", alias := "attr_factory_foo", init := true, kwOnly := false,
-                 dflt := .none, conv := .none, validator := false, eq := true, eqKey := true,
-                 hash := .unset, repr := .std, onSetattr := .unset },
-               { name := "foo_key", alias := "foo_key", init := true, kwOnly := false,
-                 dflt := .factory, conv := .none, validator := false, eq := true, eqKey := false,
-                 hash := .unset, repr := .std, onSetattr := .unset }],
-    poison := .none }
-
-theorem C17_K17b_witness : ∃ c, wf c = true ∧ "K17b" ∈ known c ∧ spec c (model c) = false :=
-  ⟨k17bCase, by decide, by decide, by decide⟩
+/-! known finding: witness -/
 
 def k17cCase : Case :=
   { valCase with
